@@ -6,6 +6,12 @@ from checks import overlay
 
 class TheCheck(Check):
     prop = "C12"
+    # address-level layer: theorems live in Props/C12Mem.lean (imported by Props/C12.lean)
+    also_audit = tuple("Qlibc.Props.C12Mem." + n for n in (
+        "inv_preserved", "owned_disjoint", "caller_holds", "observations_determined", "noninterference",
+        "noninterference_erase", "noninterference_from_init", "put_get_reads_bytes_at_put_time", "copy_survives",
+        "lib_never_faults", "fault_is_callers", "no_interleaving_faults", "nocopy_aliases", "release_frees_all",
+        "release_frees_all_reachable"))
     multi = True
     rule = ("operation histories of every modelled container, executed by the C code (ASan+UBSan+LSan build, allocator "
             "traffic of the library counted and controllable through harness/allocwrap.h) and by the Lean models; "
